@@ -237,13 +237,18 @@ func vh_icmp4_other() {
 // header) neither panic nor emit anything but echo handling
 func vh_icmp4_arbitrary() {
 	env := vhNewEnv()
-	n := []int{0, 3, 6, 8, 12, 36}[vnChoice("len", 6)]
+	n := []int{0, 3, 4, 5, 6, 8, 12, 36}[vnChoice("len", 8)]
 	b := vnBytes("icmp", n)
 	if n >= 36 {
 		// embedded IPv4 header: keep IHL symbolic, addresses ours (otherwise dropped early)
 		copy(b[8+12:8+16], []byte(vhLocal))
 	}
 	env.e.handleICMP(&env.r, vhPkt(b, vnChoice("split", 2)*8))
+	// what the echoReplier goroutine does with whatever was queued
+	for len(env.e.echoRequests) > 0 {
+		req := <-env.e.echoRequests
+		sendPing4(&req.r, 0, req.v)
+	}
 	vreach("icmp")
 }
 
